@@ -188,6 +188,45 @@ def check_referrer(path, ev, comp_map, case, tags, feats=FEATS, full=True,
                                 f"{len(obj)} != {n}", feat=feat)
                     except BaseException:
                         pass
+    # Another order of the same reads, on a freshly opened dataset: the very
+    # first access converts the whole feature to another dtype (as plotting
+    # code does); what is read afterwards is the origin's data again.
+    try:
+        ds2 = dclab.new_dataset(path)
+    except BaseException:
+        return out
+    with ds2:
+        for feat in feats:
+            if feat in ("contour", "trace") or (override and feat in override):
+                continue
+            exp_arr = ev[feat][comp_map]
+            try:
+                if feat not in ds2:
+                    continue
+                obj = ds2[feat]
+                steps = [("asarray-float32",
+                          lambda: np.asarray(obj, dtype=np.float32),
+                          exp_arr.astype(np.float32)),
+                         ("slice", lambda: obj[:], exp_arr),
+                         ("asarray", lambda: np.asarray(obj), exp_arr)]
+                if n:
+                    steps.append(("int", lambda: obj[n - 1], exp_arr[n - 1]))
+                for pname, fn, exp in steps:
+                    got = fn()
+                    if not gen.arrays_equal(got, exp):
+                        bad(FB + ":BasinProxyFeature.__array__",
+                            "wrong-data",
+                            f"{feat}: '{pname}' in the read order (float32 "
+                            f"conversion, [:], asarray, [n-1]) on "
+                            f"{type(obj).__name__}: got "
+                            f"{np.asarray(got).tolist()!r:.160} expected "
+                            f"{np.asarray(exp).tolist()!r:.160}",
+                            feat=feat, pat=pname, order="dtype-first")
+                        break
+            except BaseException as e:
+                bad(FB + ":BasinProxyFeature.__array__", "exception",
+                    f"{feat} (dtype-first order): {type(e).__name__}: {e}",
+                    feat=feat, exc=type(e).__name__, order="dtype-first")
     return out
 
 
